@@ -568,9 +568,27 @@ def dtype_rule(chk, repo, rid):
                 v = s_.value
                 if not any(isinstance(x, ast.Name) and x.id in tainted for x in ast.walk(v)):
                     continue
-                real = (isinstance(v, ast.Attribute) and v.attr == 'real') or \
-                    (isinstance(v, ast.Call) and norm(v.func) in REAL_REDUCTIONS)
-                if real:
+                def real_valued(e):
+                    """the expression is real whatever the map returns"""
+                    if isinstance(e, ast.Attribute) and e.attr in ('real', 'imag'):
+                        return True
+                    if isinstance(e, ast.Call) and norm(e.func) in set(REAL_REDUCTIONS) | {'np.real', 'np.imag', 'np.abs', 'np.absolute',
+                                                                                     'abs', 'float'}:
+                        return True
+                    if isinstance(e, ast.Call) and norm(e.func) in ('np.sqrt', 'np.square', 'np.exp', 'np.maximum', 'np.minimum',
+                                                                    'max', 'min', 'np.hypot') and e.args and not e.keywords:
+                        return all(real_valued(a) for a in e.args)         # real in, real (or nan) out
+                    if isinstance(e, ast.Constant):
+                        return isinstance(e.value, (int, float)) and not isinstance(e.value, bool)
+                    if isinstance(e, ast.BinOp):
+                        return real_valued(e.left) and real_valued(e.right)
+                    if isinstance(e, ast.UnaryOp):
+                        return real_valued(e.operand)
+                    if isinstance(e, ast.Subscript) and isinstance(e.value, ast.Name) and e.value.id in allocs and \
+                            allocs[e.value.id][0] in (None, 'float'):
+                        return True                                        # an entry of a real-allocated array
+                    return False
+                if real_valued(v):
                     continue
                 name = s_.targets[0].value.id
                 dt, alloc = allocs[name]
